@@ -374,8 +374,43 @@ def fixed_cases():
     return cases
 
 
+TRANSIENT = ('inconsistent assumptions', 'bad version number', 'Cannot find a physical path', 'No such file', 'is corrupted',
+             'was not produced by this build')
+
+
+def _transient(texts):
+    return any(t in x for x in texts for t in TRANSIENT)
+
+
+def setup_with_retry(ctx):
+    """build + obligations; the shared generated fragments (Gen/*.v) may be rebuilt by another check
+    at the same moment - that shows as inconsistent compiled libraries and is retried, not reported"""
+    import time
+    for attempt in range(3):
+        build_ok, obl, regen = core.std_setup(ctx)
+        if build_ok and not _transient([str(p) for p in obl['problems']]):
+            break
+        if not _transient([str(p) for p in obl['problems']]) and attempt >= 1:
+            break
+        ctx.log('compiled libraries changed under the build (another check rebuilt shared files?): once more')
+        time.sleep(5 + 10 * attempt)
+    return build_ok, obl, regen
+
+
+def eval_with_retry(ctx, header, case_type, terms, fn, chunk):
+    import time
+    for attempt in range(3):
+        bad, errors = core.coq_eval_cases(ctx, header, case_type, terms, fn, chunk=chunk, label='cases%d' % attempt)
+        if not errors or not _transient([e.get('error', '') for e in errors]):
+            break
+        ctx.log('compiled libraries changed under the evaluation (another check rebuilt shared files?): rebuilding')
+        time.sleep(5 + 10 * attempt)
+        core.std_setup(ctx)
+    return bad, errors
+
+
 def run(ctx):
-    build_ok, obl, regen = core.std_setup(ctx)
+    build_ok, obl, regen = setup_with_retry(ctx)
     quick = ctx.quick()
     cases = corpus_cases() + fixed_cases()
     nfixed = len(cases)
@@ -387,7 +422,7 @@ def run(ctx):
     built = [(c, r) for c, r in zip(cases, results) if r['built']]
     terms = [c_case(r) for _, r in built]
     ctx.log('comparing measured write sets with the declared ones inside Coq (%d cases)' % len(terms))
-    bad, errors = core.coq_eval_cases(ctx, HEADER, CASE_TYPE, terms, 'C17.mismatches', chunk=100)
+    bad, errors = eval_with_retry(ctx, HEADER, CASE_TYPE, terms, 'C17.mismatches', 100)
     failures = failures_of([c for c, _ in built], [r for _, r in built])
     mismatches = []
     for i in bad[:20]:
